@@ -10,18 +10,22 @@ META = {
             "property written from the statement (KAccess L1: grants for everything added/removed, read-only and synchronisation "
             "identities never succeed, protected classes / tombstones / class purge / protected and built-in entries) on every "
             "combination of a bounded space; seeded random profile sets, identities and operations are then executed for real "
-            "(ModifyEvent/CreateEvent/DeleteEvent::from_message, ReviveRecycledEvent::from_parts on a real server whose profiles "
+            "(ModifyEvent/CreateEvent/DeleteEvent::from_message, ModifyEvent::from_internal_parts with Modify::Set, BatchModifyEvent, "
+            "ReviveRecycledEvent::from_parts on a real server whose profiles "
             "are ordinary entries) and each result with its observed post-state is judged by L1 in TLC; L2 must predict the result class.",
     "note": "exhaustive within 1 profile from a 144-profile pool (and pairs from a 32-profile pool in thorough) x 12 entry kinds x 5 "
             "identities x 14 modification lists; real-server operations: a scripted grant-all scenario (every modification list x every "
             "entry kind, creates, deletes, revives, repeated by ro/sync/Synch identities) + seeded random ones, each in its own dropped write "
             "transaction. Trusted: TLC, the projection of entries / profiles / identities, the backend candidate set (C01). "
-            "Modify::Set/Assert (SCIM-only paths) and batch_modify are not driven; 'built-in' is read as 'uuid in the reserved range'.",
+            "Modify::Set (a Set of a counts as adding its new values AND removing every existing value of a) and batch_modify are driven, "
+            "incl. a scripted scenario with asymmetric present/removed grants; Modify::Assert and the SCIM PUT front-end itself are not. "
+            "'built-in' is read as 'uuid in the reserved range'.",
     "design_ref": "DESIGN.md section 6, C24",
     "technique": "TLA+ grant model (KAccess) model-checked by TLC; trace validation of real create/modify/delete/revive operations with post-state",
 }
 ARMS = {"class-added", "create-allowed", "delete-allowed", "entry-manager-allowed", "modify-allowed",
-        "protected-entry-constrained-allowed", "revive-allowed", "sync-entry-yielded-allowed"}
+        "protected-entry-constrained-allowed", "revive-allowed", "sync-entry-yielded-allowed",
+        "set-allowed", "set-refused-for-missing-removed-grant"}
 
 
 def run(tier, replay):
@@ -56,10 +60,12 @@ def run(tier, replay):
         r = recs[ln - 1]
         R.violation(f"{sig} op={r['op']} scope={r['id']['scope']} origin={r['id']['origin']}",
                     f"{r['op']} as {r['id']['u']} ({r['id']['scope']}/{r['id']['origin']}) filter {json.dumps(r['f'])} "
-                    f"modlist {json.dumps(r['ml'])} new {json.dumps(r['new']['attrs'])} succeeded: {sig}",
+                    f"modlist {json.dumps(r['ml'] if r['op'] != 'batch' else r.get('mods'))} new {json.dumps(r['new']['attrs'])} succeeded: {sig}",
                     [lines[cfg_of[ln - 1]], lines[ln - 1]])
     ops = [r for r in recs if r["a"] == "op"]
     by = {}
+    def uses_set(r):
+        return any(m["k"] == "set" for m in r["ml"]) or any(m["k"] == "set" for ml in r.get("mods", {}).values() for m in ml)
     for r in ops:
         k = f"{r['op']}:{r['res'] if r['res'] in ('ok', 'denied', 'nomatch', 'panic') else 'error_after_access'}"
         by[k] = by.get(k, 0) + 1
@@ -72,6 +78,10 @@ def run(tier, replay):
         "configurations": sum(1 for r in recs if r["a"] == "cfg"),
         "operations_by_kind_and_result": by,
         "successful_operations": sum(1 for r in ops if r["res"] == "ok"),
+        "operations_using_set": sum(1 for r in ops if uses_set(r)),
+        "set_operations_succeeded": sum(1 for r in ops if uses_set(r) and r["res"] == "ok"),
+        "set_operations_denied": sum(1 for r in ops if uses_set(r) and r["res"] == "denied"),
+        "batch_operations": sum(1 for r in ops if r["op"] == "batch"),
         "successful_on_protected_kind_entries": sum(1 for r in ops if r["res"] == "ok" and any(x in ("e7", "e8", "e9", "b1", "e4") for x in r["post"])),
         "attempts_by_ro_sync_or_synch_identity": sum(1 for r in ops if r["id"]["scope"] != "rw" or r["id"]["origin"] != "user"),
         "model_arms_exercised": sorted(ARMS),
